@@ -12,11 +12,16 @@ from lemmas import life
 from lemmas.rv64 import UNITS, state_layout, rv64_linked, POOL, POOL_X, POOL_F
 
 def run_V3(ctx, case):
-    q = Q(120); mod = Module(ctx['ll']['rv64']); L = state_layout(mod); npaths = [0]; F = life.flagvals()
+    light = case.get('light', False); q = Q(120); mod = Module(ctx['ll']['rv64']); L = state_layout(mod); npaths = [0]; F = life.flagvals()
     syms, text = rv64_linked(ctx['tag'] + '-v3-%d' % os.getpid())
     rr = [2 * i + ((case['rr'] >> i) & 1) for i in range(4)]; qm = [z3.BitVec('q%d' % (14 + i), 64) for i in range(2)]
-    tag = 'RV64 frame full v1 readReg=%s' % rr
-    dso = z3.BitVec('datasetOffset', 64); base_pc = [z3.ULE(dso, P.DATASET_EXTRA), dso & 63 == 0]
+    tag = 'RV64 frame %s v1 readReg=%s' % ('light' if light else 'full', rr)
+    dso32 = z3.BitVec('datasetOffset32', 32); dso = z3.ZeroExt(32, dso32) if light else z3.BitVec('datasetOffset', 64); base_pc = [z3.ULE(dso, P.DATASET_EXTRA), dso & 63 == 0]
+    DSI = [z3.Function('DSI%d' % k, z3.BitVecSort(64), z3.BitVecSort(64)) for k in range(8)]
+    src_ = open(os.path.join(build.REPO, 'src', 'jit_compiler_rv64.cpp')).read()
+    def const(nm):
+        mm = re.search(r'constexpr\s+\w+\s+%s\s*=\s*(\d+)\s*;' % nm, src_); return int(mm.group(1))
+    align = const('CodeAlign'); SSH = ((align + align + const('MaxRandomXInstrCodeSize') * build.config_constants().get('RANDOMX_PROGRAM_MAX_SIZE', 384)) + align - 1) // align * align + P.CACHE_ACCESSES * align      # SuperScalarHashOffset
     L3M = P.MASK_L3_64; DM = (P.DATASET_BASE - 1) & ~63
     z64 = lambda v: z3.ZeroExt(32, v); ld = lambda arr, off: z3.Concat(*[z3.Select(arr, off + k) for k in reversed(range(8))])
     tj = resolve(NamedT('class.randomx::JitCompilerRV64', mod)); oj = tj.layout()[0]; phase_seen = set()
@@ -25,7 +30,7 @@ def run_V3(ctx, case):
     def one(fk):
         it = Interp(mod); it.fork = fk; fk['pc'] += base_pc
         H = life.Heap(it, fail=False); cxxlib.install(it, H)
-        it.mem.alloc(len(text) + 64, 'text')
+        it.mem.alloc(len(text) + 64, 'text'); it.mem.objs['text']['addr'] = 0x10000000
         for k, b in enumerate(text): it.mem.objs['text']['bytes'][k] = b
         it.extern = {nm: Ptr('text', off) for nm, off in syms.items()}
         life.run_ctors(it, mod)
@@ -37,7 +42,7 @@ def run_V3(ctx, case):
         J = it.mem.alloc(tj.size(), 'J')
         for k in range(0, tj.size() - tj.size() % 8, 8): it.mem.store(Ptr('J', k), 0, 8)
         it.call('_ZN7randomx15JitCompilerRV64C2Ev', [J]); code = it.mem.load(Ptr('J', oj[0] + L['code']), 8)
-        flags = F['JIT'] | F['FULL_MEM']; it.mem.store(Ptr('J', oj[1]), flags, 4)
+        flags = F['JIT'] | (0 if light else F['FULL_MEM']); it.mem.store(Ptr('J', oj[1]), flags, 4)
         ncalls = [0]
         for f in mod.funcs:
             if re.match(r'_ZN7randomxL\d+h_\w+ERNS_13CompilerStateE', f): it.hooks[f] = (lambda s, a: ncalls.__setitem__(0, ncalls[0] + 1))
@@ -45,19 +50,20 @@ def run_V3(ctx, case):
         for k in range(0, 128 + 8 * 512, 8): it.mem.store(Ptr('prog', k), 0, 8)
         for l in range(2): it.mem.store(Ptr('pcfg', 8 * l), V.emask_of(qm[l]), 8)
         for k in range(4): it.mem.store(Ptr('pcfg', 16 + 4 * k), rr[k], 4)
-        it.call('_ZN7randomx15JitCompilerRV6415generateProgramERNS_7ProgramERNS_20ProgramConfigurationE', [J, prog, pcfg])
+        if light: it.call('_ZN7randomx15JitCompilerRV6420generateProgramLightERNS_7ProgramERNS_20ProgramConfigurationEj', [J, prog, pcfg, dso32])
+        else: it.call('_ZN7randomx15JitCompilerRV6415generateProgramERNS_7ProgramERNS_20ProgramConfigurationE', [J, prog, pcfg])
         def chk(c, what):
             q.n += 1; q.unsat += bool(c); q.sat += (not c)
             if not c: q.failed.append(('%s: %s' % (tag, what), {}))
         chk(ncalls[0] in (256, 384), 'an emitter is called for every instruction of the program (%d calls)' % ncalls[0])
         mem = it.mem; CODE = code.obj
-        mem.mkarr('sp', P.L3); S0 = mem.objs['sp']['arr']; mem.mkarr('dataset', P.DATASET_BASE + P.DATASET_EXTRA); D0 = mem.objs['dataset']['arr']; mem.share('dataset')
+        mem.mkarr('sp', P.L3); S0 = mem.objs['sp']['arr']; mem.mkarr('dataset', P.DATASET_BASE + P.DATASET_EXTRA); D0 = mem.objs['dataset']['arr']; mem.share('dataset'); mem.alloc(64, 'cachemem'); mem.share('cachemem')
         mem.alloc(256, 'regfile'); A = [[z3.BitVec('a%d_%d' % (i, l), 64) for l in range(2)] for i in range(4)]
         for k in range(0, 192, 8): mem.store(Ptr('regfile', k), z3.BitVec('rf_stale%d' % k, 64), 8)
         for i in range(4):
             for l in range(2): mem.store(Ptr('regfile', 192 + 16 * i + 8 * l), A[i][l], 8)
         mx0, ma0 = z3.BitVecs('mx_entry ma_entry', 32)
-        mem.alloc(16, 'memregs'); mem.store(Ptr('memregs', 0), mx0, 4); mem.store(Ptr('memregs', 4), ma0, 4); mem.store(Ptr('memregs', 8), Ptr('dataset', dso), 8)
+        mem.alloc(16, 'memregs'); mem.store(Ptr('memregs', 0), mx0, 4); mem.store(Ptr('memregs', 4), ma0, 4); mem.store(Ptr('memregs', 8), Ptr('cachemem', 0) if light else Ptr('dataset', dso), 8)
         STK = 1024; mem.alloc(STK + 64, 'stack')
         for k in range(0, STK + 64, 8): mem.store(Ptr('stack', k), z3.BitVec('stk%d' % k, 64), 8)
         m = Machine(mem, CODE, it); entry = {r: z3.BitVec('x%d_entry' % r, 64) for r in range(1, 32)}; fentry = {r: z3.BitVec('f%d_entry' % r, 64) for r in range(32)}
@@ -77,13 +83,14 @@ def run_V3(ctx, case):
             for l in range(2): q.prove_eq(pc, m.f[16 + 2 * i + l], A[i][l], '%s: group A register a%d[%d] loaded from the register file' % (tag, i, l), 64)
         q.prove_eq(pc, m.x[25], z3.Concat(ma0, mx0), '%s: x25 = (ma, mx)' % tag, 64)
         chk(isinstance(m.x[5], Ptr) and m.x[5].obj == 'sp' and m.x[5].off == 0, 'x5 = scratchpad')
-        chk(isinstance(m.x[6], Ptr) and m.x[6].obj == 'dataset', 'x6 = dataset pointer'); x6_loop = m.x[6]
+        chk(isinstance(m.x[6], Ptr) and m.x[6].obj == ('cachemem' if light else 'dataset'), 'x6 = dataset / cache pointer'); x6_loop = m.x[6]
         chk(isinstance(m.x[3], Ptr) and m.x[3].obj == CODE and m.x[3].off == POOL, 'x3 = literal pool (buffer offset %d)' % POOL)
         for nm_, r_, a_ in (('spAddr0', 26, mx0), ('spAddr1', 27, ma0)):
             okp = isinstance(m.x[r_], Ptr) and m.x[r_].obj == 'sp'; chk(okp, '%s register points into the scratchpad' % nm_)
             if okp: q.prove_eq(pc, bv(m.x[r_].off, 64), z64(a_ & L3M), '%s: 4.6.1: %s = %s (masked)' % (tag, nm_, 'mx' if r_ == 26 else 'ma'), 64)
-        okp = isinstance(m.x[7], Ptr) and m.x[7].obj == 'dataset'; chk(okp, 'x7 = address of the first dataset read')
-        if okp: q.prove_eq(pc, bv(m.x[7].off, 64), dso + z64(ma0 & DM), '%s: x7 = dataset + (ma mod dataset size, line aligned)' % tag, 64)
+        if not light:
+            okp = isinstance(m.x[7], Ptr) and m.x[7].obj == 'dataset'; chk(okp, 'x7 = address of the first dataset read')
+            if okp: q.prove_eq(pc, bv(m.x[7].off, 64), dso + z64(ma0 & DM), '%s: x7 = dataset + (ma mod dataset size, line aligned)' % tag, 64)
         q.prove_eq(pc, m.x[24], iters, '%s: x24 = iteration count' % tag, 64)
         # mask / literal registers as V1 assumes them
         lit = lambda off, n: mem.load(Ptr(CODE, POOL + off), n)
@@ -100,7 +107,7 @@ def run_V3(ctx, case):
         R0 = [z3.BitVec('r%d' % i, 64) for i in range(8)]; ma, mx = z3.BitVecs('ma mx', 32); ic = z3.BitVec('ic', 64); fk['pc'] += [ic >= 1, ic < (1 << 31)]
         for k in range(8): m.x[16 + k] = R0[k]
         mix = R0[rr[0]] ^ R0[rr[1]]; A0 = z3.Extract(31, 0, mix) & L3M; A1 = z3.Extract(63, 32, mix) & L3M
-        m.x[26] = Ptr('sp', z64(A0)); m.x[27] = Ptr('sp', z64(A1)); m.x[25] = z3.Concat(ma, mx); m.x[24] = ic; m.x[7] = Ptr('dataset', dso + z64(ma & DM))
+        m.x[26] = Ptr('sp', z64(A0)); m.x[27] = Ptr('sp', z64(A1)); m.x[25] = z3.Concat(ma, mx); m.x[24] = ic; m.x[7] = z3.BitVec('x7_h', 64) if light else Ptr('dataset', dso + z64(ma & DM))
         for r_ in (8, 9, 28, 29, 30, 31): m.x[r_] = z3.BitVec('x%d_h' % r_, 64)
         for r_ in list(range(0, 16)) + [24, 25]: m.f[r_] = z3.BitVec('f%d_h' % r_, 64)
         frm_l = z3.BitVec('frm_loop', 3); m.frm = frm_l
@@ -117,11 +124,20 @@ def run_V3(ctx, case):
             for r_ in (8, 9): mach.x[r_] = z3.BitVec('x%d_after_program' % r_, 64)          # V1: an instruction may clobber x8, x9, f24, f25 and change frm (CFROUND)
             for r_ in (24, 25): mach.f[r_] = z3.BitVec('f%d_after_program' % r_, 64)
             st['frm2'] = z3.BitVec('frm_after_program', 3); mach.frm = st['frm2']
+        ssh = {}
+        def ssh_routine(mach):      # contract of the generated SuperscalarHash routine (V5): x7 = item number, x6 = cache memory -> item words in x8-x15; x1 = return address; x7, x28-x31 scratch
+            ssh['item'] = mach.x[7]; ssh['x6'] = mach.x[6]
+            for k in range(8): mach.x[8 + k] = DSI[k](bv(mach.x[7], 64))
+            for r_ in (7, 28, 29, 30, 31): mach.x[r_] = z3.BitVec('x%d_clobbered_by_ssh' % r_, 64)
+            ra = mach.x[1]
+            if not (isinstance(ra, Ptr) and ra.obj == mach.code and is_c(ra.off)): raise Fault('SuperscalarHash routine: bad return address')
+            mach.pc = ra.off
         kind = None
         try:
             m.pc = LOOPTOP; steps = 0; del m.accesses[:]
             while True:
                 if m.pc == PROG and 'pre' not in st: program(m)
+                if light and m.pc == SSH: ssh_routine(m); continue
                 rr_ = m.step(); steps += 1
                 if steps > 900: raise Fault('step bound exceeded (unwinding assertion)')
                 if rr_ is None: pass
@@ -151,7 +167,13 @@ def run_V3(ctx, case):
         # ---- steps 5-8 (v1)
         r2, f2, e2 = st['r2'], st['f2'], st['e2']
         mpn = z3.Extract(31, 0, r2[rr[2]] ^ r2[rr[3]]); mp_new = mx ^ mpn; new_ma = mp_new; new_mx = ma
-        dsw = [ld(D0, dso + z64(ma & DM) + 8 * k) for k in range(8)]
+        if light:
+            chk('item' in ssh, 'light mode: the SuperscalarHash routine is called')
+            if 'item' not in ssh: return
+            q.prove_eq(pc, ssh['item'], z3.LShR(dso + z64(ma & DM), 6), '%s: step 7 (light): item number = (datasetOffset + ma %% BASE)/64' % tag, 64)
+            chk(isinstance(ssh['x6'], Ptr) and ssh['x6'].obj == 'cachemem' and ssh['x6'].off == 0, 'light mode: x6 = cache memory at the call')
+            dsw = [DSI[k](z3.LShR(dso + z64(ma & DM), 6)) for k in range(8)]
+        else: dsw = [ld(D0, dso + z64(ma & DM) + 8 * k) for k in range(8)]
         r3 = [r2[i] ^ dsw[i] for i in range(8)]
         fnew = [[f2[i][0] ^ e2[i][0], f2[i][1] ^ e2[i][1]] for i in range(4)]
         exp = st['sp2']
@@ -177,8 +199,9 @@ def run_V3(ctx, case):
             q.prove(pc, z3.Extract(31, 0, bv(m.x[24], 64)) == z3.Extract(31, 0, ic) - 1, '%s: step 13: counter decremented' % tag)
             nb = bv(m.x[25], 64)
             q.prove(pc, z3.And(z3.Extract(63, 32, nb) & DM == new_ma & DM, z3.Extract(31, 0, nb) & DM == new_mx & DM), '%s: steps 5,8: ma/mx for the next iteration (address-relevant bits)' % tag)
-            okp = isinstance(m.x[7], Ptr) and m.x[7].obj == 'dataset'; chk(okp, 'x7 = address of the next dataset read')
-            if okp: q.prove_eq(pc, bv(m.x[7].off, 64), dso + z64(new_ma & DM), '%s: steps 5-6: next dataset line = dataset[new ma]' % tag, 64)
+            if not light:
+                okp = isinstance(m.x[7], Ptr) and m.x[7].obj == 'dataset'; chk(okp, 'x7 = address of the next dataset read')
+                if okp: q.prove_eq(pc, bv(m.x[7].off, 64), dso + z64(new_ma & DM), '%s: steps 5-6: next dataset line = dataset[new ma]' % tag, 64)
             chk(isinstance(m.x[2], Ptr) and m.x[2].off == FRAME and isinstance(m.x[5], Ptr) and m.x[5].obj == 'sp' and m.x[5].off == 0 and isinstance(m.x[3], Ptr) and m.x[3].off == POOL, 'frame registers sp/x5/x3 intact at the back edge')
             q.prove_eq(pc, m.x[1], z64(bv(lit(88, 4), 32)) + 56, '%s: x1 = L3 mask + 56 again at the back edge' % tag, 64)
             for r_, (off, szz) in POOL_X.items():
@@ -206,13 +229,13 @@ def run_V3(ctx, case):
     if not ok: q.failed.append((tag + ': loop-body extraction reached %s (expected back edge and return)' % sorted(phase_seen), {}))
     return result('V3', tag, q, paths=npaths[0], detail='%d paths: %s' % (npaths[0], sorted(phase_seen)))
 
-def jobs_V3(ctx): return [dict(rr=r) for r in ((0, 15, 5) if ctx['tier'] == 'quick' else range(16))]
+def jobs_V3(ctx): return [dict(rr=r, light=l) for l in (False, True) for r in ((0, 15, 5) if ctx['tier'] == 'quick' else range(16))]
 
 LEMMAS = {'V3': dict(jobs=jobs_V3, run=run_V3, units=['rv64'], rv64=True,
     functions=['JitCompilerRV64::JitCompilerRV64', 'generateProgram / emitProgramPrefix / emitProgramSuffix / emitJump (stitching and patch points)', 'assembled runtime: randomx_riscv64_prologue, loop_begin, data_read (+v2 tweak slot), spad_store, loop_end, epilogue'],
-    doc='the frame the real generator stitches around the program, executed under the RV64 model: the prologue establishes 4.6.1 and the register conventions V1 assumes (masks, literal pool pointer, reciprocal registers, rounding-mode table); one iteration from an arbitrary loop state == spec 4.6.2 (same oracle as I8/J3/N3) for v1 in full mode; exit writes the register file, restores callee-saved registers and sp and returns; dataset accesses in bounds',
+    doc='the frame the real generator stitches around the program, executed under the RV64 model: the prologue establishes 4.6.1 and the register conventions V1 assumes (masks, literal pool pointer, reciprocal registers, rounding-mode table); one iteration from an arbitrary loop state == spec 4.6.2 (same oracle as I8/J3/N3) for v1 in full and in light mode (the SuperscalarHash routine is an abstract call with the contract V5 proves); exit writes the register file, restores callee-saved registers and sp and returns; dataset accesses in bounds',
     bound='one loop iteration from an arbitrary state + entry + exit; program body abstracted (arbitrary effect on r/f/e, scratchpad, x8, x9, f24, f25, frm: what V1 allows an instruction to do); readReg choices {0,15,5} (quick) / all 16',
     symbolic='registers, scratchpad, dataset, ma/mx, E masks, datasetOffset, iteration counter, callee-saved registers, stack content, frm',
     stubs=['h_* emitters := no bytes (V1)', 'allocMemoryPages := fresh buffer; Cpu::hasRVV := false (scalar back-end)', 'RV64 semantics: engine/rv64sem.py', 'ld.lld resolves the pc-relative references of the runtime'],
-    outside='v2 (software-AES F/E mix with table lookups), light mode (call of the SuperscalarHash routine from the loop), the vector back-end')}
+    outside='v2 (software-AES F/E mix with table lookups), the vector back-end')}
 UNITS = UNITS
